@@ -56,6 +56,9 @@ def states(tier, seed):
         st.append(dict(part="offgroup", sym=sym, group=grp))
     for sym, sw, kl in itertools.product([False, True], [0.0, 30.0], [0.05, 0.7]):
         st.append(dict(part="res", sym=sym, sweep=sw, k_lam=kl, tier=tier))
+        if kl == 0.05:
+            # the same wing at model scale (0.13 mm chord, Reynolds number per length scaled up): no absolute length in the panel lengths
+            st.append(dict(part="res", sym=sym, sweep=sw, k_lam=kl, tier=tier, gscale=1.0e-4))
     return st, 0
 
 
@@ -232,9 +235,10 @@ def part_res(s):
     # spanwise / chordwise spacing: uniform, cosine, and strongly graded towards the root or the tip (sliver panels)
     for nx, ny, cs in itertools.product(nxs, nys, [0.0, 1.0, "root", "tip"]):
         nyh = (ny + 1) // 2 if s["sym"] else ny
-        m = wing(s["sweep"], s["sym"], nx=nx, ny=nyh, cos_y=cs if not isinstance(cs, str) else 0.0, cluster=cs if isinstance(cs, str) else None)
+        gs = s.get("gscale", 1.0)
+        m = wing(s["sweep"], s["sym"], nx=nx, ny=nyh, cos_y=cs if not isinstance(cs, str) else 0.0, cluster=cs if isinstance(cs, str) else None, span=10.0 * gs, chord=1.3 * gs)
         p = drag_problem(m, s["sym"], k_lam=s["k_lam"], **DICT_EXTRAS[bool(s["sym"])])
-        out.append(ev(p, re=2e6, Mach_number=0.84, CL=0.5, t_over_c=np.full(m.shape[1] - 1, 0.12)))
+        out.append(ev(p, re=2e6 / gs, Mach_number=0.84, CL=0.5, t_over_c=np.full(m.shape[1] - 1, 0.12)))
     out = np.array(out)
     viol = []
     for j, nm in enumerate(("CDv", "CDw")):
